@@ -293,9 +293,20 @@ func c30MakeSeeds(tb testing.TB) []c30Seed {
 		c30Seed{Name: "fix-unified", Type: "offer", Local: "audio", SDP: c30FixtureUnified()},
 		c30Seed{Name: "fix-planb", Type: "offer", Local: "audio", SDP: c30FixturePlanB()},
 	)
-	sort.SliceStable(seeds, func(i, j int) bool {
-		return strings.Count(seeds[i].SDP, "\n") < strings.Count(seeds[j].SDP, "\n")
-	})
+	// order = priority when a time budget cuts the enumeration: the small seeds, the two fixtures,
+	// then the larger pion seeds; by size inside each group
+	rank := func(s c30Seed) int {
+		n := strings.Count(s.SDP, "\n")
+		switch {
+		case n <= 30:
+			return n
+		case strings.HasPrefix(s.Name, "fix-"):
+			return 1000 + n
+		}
+
+		return 2000 + n
+	}
+	sort.SliceStable(seeds, func(i, j int) bool { return rank(seeds[i]) < rank(seeds[j]) })
 
 	return seeds
 }
@@ -1248,6 +1259,12 @@ func c30LoadSeeds(tb testing.TB, dir string) c30SeedFile {
 	return sf
 }
 
+// c30Owner spreads the cases over the workers (multiplicative hash: neighbouring cases, which
+// tend to crash together, go to different workers regardless of the periods of the operators).
+func c30Owner(i, nw int) int {
+	return int((uint32(i)*2654435761)>>8) % nw //nolint:gosec
+}
+
 func c30Worker(t *testing.T, spec string) {
 	dir := os.Getenv(c30EnvDir)
 	logf, err := os.OpenFile(os.Getenv(c30EnvLog), os.O_APPEND|os.O_CREATE|os.O_WRONLY, 0o644)
@@ -1336,7 +1353,7 @@ func c30Worker(t *testing.T, spec string) {
 		hi = env.total
 	}
 	for i := from; i < hi; i++ {
-		if i%nw != w {
+		if c30Owner(i, nw) != w {
 			continue
 		}
 		if env.skipPair(i) {
